@@ -193,7 +193,8 @@ def run_dmrg_case(c, M=None):
         bad.append(('charge-sector:%s:%s' % (c['diag'], tag), 'initial sector %s, get_total_charge %s, dense support %s' % (sector, q_after, sorted(support))))
     E_dense = float(np.real(np.vdot(v, ref.H @ v)) / nrm**2)
     E_trunc = last_E_trunc(eng, 2 * (c['L'] - eng.n_optimize))
-    if not abs(E - E_dense) <= TOL + E_trunc:
+    unreliable = level and E > -1e-8  # documented (warning of the engine): projected-out state has eigenvalue 0, result unreliable
+    if not abs(E - E_dense) <= TOL + E_trunc and not unreliable:
         bad.append(('energy-mismatch:' + tag, 'E=%.12f from run(), <psi|H|psi>=%.12f (dense), reported max E_trunc=%.3g' % (E, E_dense, E_trunc)))
     if not abs(E_mpo - E_dense) <= TOL:
         bad.append(('mpo-expectation:' + tag, 'H_MPO.expectation_value=%.12f, dense <psi|H|psi>=%.12f' % (E_mpo, E_dense)))
